@@ -153,13 +153,22 @@ class C05(Property):
                 n = rng.randint(1, 2)
                 reac, prod = _merge(reac + [[k, n]]), _merge(prod + [[k, n]])
             ir, ip = [], []
-            if rng.random() < 0.3:                                    # move part of a coefficient to the inactive dicts
-                side, inact = (reac, ir) if rng.random() < 0.5 else (prod, ip)
-                j = rng.randrange(len(side))
-                if side[j][1] > 1:
-                    m = rng.randint(1, side[j][1] - 1)
-                    side[j][1] -= m
-                    inact.append([side[j][0], m])
+            if rng.random() < 0.45:
+                # move part of a coefficient — or ALL of it: the species is then PURELY inactive in this reaction (a solvent written
+                # `(H2O)`), on the reactant side, the product side, or both — to the inactive dicts
+                for _ in range(rng.choice([1, 1, 2])):
+                    side, inact = (reac, ir) if rng.random() < 0.5 else (prod, ip)
+                    if not side:
+                        continue
+                    j = rng.randrange(len(side))
+                    whole = rng.random() < 0.5 and (len(reac) > 1 or side is prod)      # keep at least one active reactant
+                    if whole:
+                        k, n = side.pop(j)
+                        inact[:] = _merge(inact + [[k, n]])
+                    elif side[j][1] > 1:
+                        m = rng.randint(1, side[j][1] - 1)
+                        side[j][1] -= m
+                        inact[:] = _merge(inact + [[side[j][0], m]])
             rxns.append({'reac': reac, 'prod': prod, 'inact_reac': ir, 'inact_prod': ip, 'param': ri + 1 + rng.randint(0, 3) * 10,
                          'ordered': rng.random() < 0.5})
         if not formulas and rng.random() < 0.25 and subs:             # explicit zero entry in a composition
